@@ -266,9 +266,10 @@ class TypeDef:
         self.extra_json = {}      # extra keys of the driver description
 
     # ---------------------------------------------------------------- rendering
-    def render(self):
+    def render(self, bare=False):
+        """`bare`: only the derive input itself (no std derives, no hand-written companion items)."""
         out = []
-        if self.extra_derives:
+        if self.extra_derives and not bare:
             out.append("#[derive(%s)]" % ", ".join(self.extra_derives))
         out.append("#[derive(Educe)]")
         for t in self.traits:
@@ -310,7 +311,8 @@ class TypeDef:
                 else:
                     vs.append("%s %s { %s }%s" % (a, v.name, fs, d))
             out.append("pub enum %s { %s }" % (self.name, ", ".join(vs)))
-        out += self.extra_items
+        if not bare:
+            out += self.extra_items
         return "\n".join(out)
 
     def render_plain(self):
